@@ -89,9 +89,30 @@ def parseKeys (x : String) : Option (List Key) :=
 
 def showKeys (ks : List Key) : String := if ks.isEmpty then "-" else ",".intercalate (ks.map showKey)
 
+def parseLegacy (role : String) (x : String) : Option (List Legacy) :=
+  (x.splitOn ",").mapM fun e =>
+    match e.splitOn ":" with
+    | [n, pw] =>
+      if pw = "-" then some { role := role, name := unTilde n, password := none }
+      else (parsePw pw).map fun p => { role := role, name := unTilde n, password := some p }
+    | _ => none
+
+/-- the optional sections of the legacy file format: `s1`, `o=…`, `p=…`, `t=…` (in this order) -/
+def parseLegacySections (d : Desc) : List String → Option Desc
+  | [] => some d
+  | sec :: rest =>
+    if sec = "s1" then parseLegacySections { d with allowSubLegacy := true } rest
+    else if sec.startsWith "o=" then
+      (parseLegacy "op" (sec.drop 2).toString).bind fun l => parseLegacySections { d with legacy := d.legacy ++ l } rest
+    else if sec.startsWith "p=" then
+      (parseLegacy "present" (sec.drop 2).toString).bind fun l => parseLegacySections { d with legacy := d.legacy ++ l } rest
+    else if sec.startsWith "t=" then
+      (parseLegacy "message" (sec.drop 2).toString).bind fun l => parseLegacySections { d with legacy := d.legacy ++ l } rest
+    else none
+
 def parseDesc (x : String) : Option Desc :=
   match x.splitOn ";" with
-  | [c, a, u, w, k] =>
+  | c :: a :: u :: w :: k :: more =>
     if !(c.startsWith "c" && a.startsWith "a" && u.startsWith "u=" && w.startsWith "w=" && k.startsWith "k=") then none
     else do
       let n ← nat? (c.drop 1).toString
@@ -103,15 +124,22 @@ def parseDesc (x : String) : Option Desc :=
                   | [pw, perm] => (parsePw pw).map fun p => some { password := p, perms := parsePerm perm }
                   | _ => none)
       let ks ← parseKeys (k.drop 2).toString
-      pure { content := n, autoSub := au, users := us, wildcard := wu, keys := ks }
+      parseLegacySections { content := n, autoSub := au, users := us, wildcard := wu, keys := ks } more
   | _ => none
+
+def showLegacy (sec role : String) (d : Desc) : String :=
+  let l := d.legacy.filter (·.role = role)
+  if l.isEmpty then ""
+  else ";" ++ sec ++ ",".intercalate (l.map fun e =>
+    tilde e.name ++ ":" ++ (match e.password with | none => "-" | some p => showPw p))
 
 def showDesc (d : Desc) : String :=
   s!"c{d.content};a{b2s d.autoSub};u={showUsers d.users};w=" ++
   (match d.wildcard with
    | none => "-"
    | some w => showPw w.password ++ ":" ++ showPerm w.perms) ++
-  ";k=" ++ showKeys d.keys
+  ";k=" ++ showKeys d.keys ++ (if d.allowSubLegacy then ";s1" else "") ++
+  showLegacy "o=" "op" d ++ showLegacy "p=" "present" d ++ showLegacy "t=" "message" d
 
 def parseConf (w us : String) : Option Conf := do
   let wb ← bool? w
@@ -186,6 +214,11 @@ def parseBody (x : String) : Option ReqBody :=
     let n ← nat? n
     let a ← bool? a
     pure (.desc { content := n, autoSub := a })
+  | ["descl", n, sec, name, pw] => do
+    let n ← nat? n
+    let role ← (if sec = "o" then some "op" else if sec = "p" then some "present" else if sec = "t" then some "message" else none)
+    let l ← parseLegacy role (name ++ ":" ++ pw)
+    pure (.desc { content := n, legacy := l })
   | ["descu", n] => (nat? n).map fun n => .desc { content := n, hasUsers := true }
   | ["descw", n] => (nat? n).map fun n => .desc { content := n, hasWildcard := true }
   | ["desck", n] => (nat? n).map fun n => .desc { content := n, hasKeys := true }
@@ -233,6 +266,9 @@ def showBody : Body → String
       [ if d.keys.isEmpty then none else some "\"authKeys\":\"LEAK\"",
         if d.autoSub then some "\"auto-subgroups\":true" else none,
         if d.content = 0 then none else some ("\"description\":" ++ xs d.content),
+        if d.legacy.any (·.role = "op") then some "\"op\":\"LEAK\"" else none,
+        if d.legacy.any (·.role = "message") then some "\"other\":\"LEAK\"" else none,
+        if d.legacy.any (·.role = "present") then some "\"presenter\":\"LEAK\"" else none,
         if d.users.isEmpty then none else some "\"users\":\"LEAK\"",
         d.wildcard.map fun _ => "\"wildcard-user\":\"LEAK\"" ]
   | .user u => "json:" ++ jsonObj
@@ -298,6 +334,25 @@ structure Orc where
   consumed : List (String × Nat) := []     -- (file, version) replaced by a successful conditional write
   deriving Repr
 
+/-- What a server that loads this file works with — the oracle's own reading of the legacy
+format (galene's README for the old format): a name is defined by the `users` map if it is
+there, otherwise by the FIRST entry carrying it in `op`, then `presenter`, then `other`, with
+that array's role; the wildcard user is the `wildcard-user` field if present, otherwise the
+first entry without a username; an entry without password accepts any password;
+`allow-subgroups` means `auto-subgroups`. -/
+def effective (d : Desc) : Desc :=
+  let named := d.legacy.filter (·.name ≠ "")
+  let eff (l : Legacy) : User :=
+    { password := match l.password with | some p => p | none => .wildcard, perms := .named l.role }
+  let extra := (named.map (·.name)).eraseDups.filterMap fun n =>
+    if (lookup n d.users).isSome then none else (named.find? (·.name = n)).map fun l => (n, eff l)
+  { content := d.content, autoSub := d.autoSub || d.allowSubLegacy,
+    users := extra.foldl (fun acc p => upsert p.1 p.2 acc) d.users,
+    wildcard := match d.wildcard with
+      | some w => some w
+      | none => (d.legacy.find? (·.name = "")).map eff,
+    keys := d.keys }
+
 /-- apply one `label[@ver]=content` item of a `chg=` token -/
 def applyChange (o : Orc) (item : String) : Option Orc :=
   match item.splitOn "=" with
@@ -321,7 +376,8 @@ def applyChange (o : Orc) (item : String) : Option Orc :=
         | _ => none
       else if l.startsWith "g:" then
         let d ← parseDesc content
-        pure { o with groups := upsert (l.drop 2).toString { desc := d, ver := v } o.groups }
+        -- the oracle keeps the effective view of every file
+        pure { o with groups := upsert (l.drop 2).toString { desc := effective d, ver := v } o.groups }
       else none
     | _ => none
   | _ => none
@@ -521,8 +577,10 @@ def preserved (t : Target) (before after : Option GroupFile) : Option String :=
     let a := a.desc
     match t with
     | .group _ =>
-      if a.users ≠ b.users then some "stored users changed by a description update"
-      else if a.wildcard ≠ b.wildcard then some "stored wildcard user changed by a description update"
+      if b.users.any (fun p => lookup p.1 a.users ≠ some p.2) then some "stored users changed by a description update"
+      else if b.wildcard.isSome && a.wildcard ≠ b.wildcard then some "stored wildcard user changed by a description update"
+      else if a.users ≠ b.users || a.wildcard ≠ b.wildcard then
+        some "user entries added by a description update (obsolete op/presenter/other arrays in the request body are not refused as unsanitised)"
       else if a.keys ≠ b.keys then some "stored keys changed by a description update"
       else none
     | .user _ w =>
